@@ -182,6 +182,12 @@ def r19_2(prog, out):
         pos = set(pos) | positive_regions(prog, bi, cells, PAIRS)[0]
         key = "%s:return-after-check" % prog.short(bid)
         esc = bi.cfg.escapes(0, pos, after=False)
+        if esc is not None:
+            # the outcome of the check may be carried in a value (an enum `Admitted | Full`, a bool) and branched on later
+            from consumers import const_walk
+            labels = const_walk(bi, 0, lambda x: "checked" if x in pos else None, max_steps=40000)
+            if "return" not in labels and "unknown" not in labels and "checked" in labels:
+                esc = None
         if esc is None:
             out.holds(key, prog.loc(bid), "every return lies under the `space available` arm of a check")
         else:
